@@ -38,7 +38,8 @@ PluginFailed(e, i) ==
 SomeFailure(e) == (\E i \in 1..N(e) : PluginFailed(e, i)) \/ Conflict(e)
 \* a failure before anything is written: handshake, generate request, or a path conflict
 \* (a goodbye that fails after a successful generation is not one of them)
-PreWriteFailure(e) == \/ \E i \in 1..N(e) : ~HsGood(S(e)[i])
+PreWriteFailure(e) == \/ CoreFails(e)                                   \* compilation / a module's generation / the layout check failed
+                      \/ \E i \in 1..N(e) : ~HsGood(S(e)[i])
                       \/ \E i \in 1..N(e) : Gets(e, i) /\ ~(GenLabelOK(S(e)[i]) \/ SamePathGroup(S(e)[i]) = "core")
                       \/ Conflict(e)
 
